@@ -454,7 +454,8 @@ func (em *emitter) assignValuesToAddresses(addresses []address, values []ast.Exp
 	case *ast.Index: // map index.
 		mapType := em.typ(valueExpr.Expr)
 		mapp := em.emitExpr(valueExpr.Expr, mapType)
-		keyType := em.typ(valueExpr.Index)
+		// The key is converted to the type of the keys of the map.
+		keyType := mapType.Key()
 		key, kKey := em.emitExprK(valueExpr.Index, keyType)
 		valueType := mapType.Elem()
 		value := em.fb.newRegister(valueType.Kind())
